@@ -98,7 +98,7 @@ def load_known(prop):
 
 
 def write_evidence(ctx: Ctx, res: Result, level="model_checking"):
-    EVIDENCE.mkdir(exist_ok=True)
+    EVIDENCE.mkdir(parents=True, exist_ok=True)
     cov = dict(res.coverage)
     cov.setdefault("samples", [])
     cov["samples"] = cov["samples"][:4]
